@@ -96,13 +96,15 @@ theorem treeG_append {t : ObjectTree} (h : TreeG t) {obj arg : Nat} (ho : live t
     (hp : C13.P t arg = INV) (hna : C13.isAncestorOrSelf t arg t.fuel obj = false) :
     ∃ t', t.append obj arg = .ok t' ∧ TreeG t' ∧ SamePay t t' ∧ (∀ x, live t' x = live t x) ∧
       (∀ x, C13.P t' x = if x = arg then obj else C13.P t x) ∧
-      (∀ x, La t' x = if x = obj then arg else La t x) := by
+      (∀ x, La t' x = if x = obj then arg else La t x) ∧
+      (∀ x, Nx t' x = if x = arg then INV else if x = La t obj ∧ La t obj ≠ INV then arg else Nx t x) ∧
+      (∀ x, Fi t' x = if x = obj ∧ La t obj = INV then arg else Fi t x) := by
   have hpre : appendPre t obj arg = true := by
     simp only [appendPre, Bool.and_eq_true, decide_eq_true_eq, Bool.not_eq_true']
     exact ⟨⟨⟨ho, ha⟩, hp⟩, hna⟩
-  obtain ⟨t', e, w', hsz, hlive, _, hP, _, _, _, hLa⟩ := append_wf h.wf hpre
+  obtain ⟨t', e, w', hsz, hlive, _, hP, _, hNx, hFi, hLa⟩ := append_wf h.wf hpre
   have sp := append_samePay e
-  refine ⟨t', e, ⟨w', ?_, by rw [hlive]; exact h.root⟩, sp, hlive, hP, hLa⟩
+  refine ⟨t', e, ⟨w', ?_, by rw [hlive]; exact h.root⟩, sp, hlive, hP, hLa, hNx, hFi⟩
   intro x hx
   have hi : (slot t' x).infoIndex = (slot t x).infoIndex := congrArg (fun p => p.2.1) (sp.pay x)
   rw [hi]; exact h.info x (by rw [← hlive]; exact hx)
@@ -112,13 +114,15 @@ theorem treeG_appendAfter {t : ObjectTree} (h : TreeG t) {obj arg nextTo : Nat} 
     (ha : live t arg = true) (hp : C13.P t arg = INV) (hna : C13.isAncestorOrSelf t arg t.fuel obj = false)
     (hn : live t nextTo = true) (hpn : C13.P t nextTo = obj) :
     ∃ t', t.appendAfter obj arg nextTo = .ok t' ∧ TreeG t' ∧ SamePay t t' ∧ (∀ x, live t' x = live t x) ∧
-      (∀ x, C13.P t' x = if x = arg then obj else C13.P t x) := by
+      (∀ x, C13.P t' x = if x = arg then obj else C13.P t x) ∧
+      (∀ x, Nx t' x = if x = arg then Nx t nextTo else if x = nextTo then arg else Nx t x) ∧
+      (∀ x, Fi t' x = Fi t x) := by
   have hpre : appendAfterPre t obj arg nextTo = true := by
     simp only [appendAfterPre, appendPre, Bool.and_eq_true, decide_eq_true_eq, Bool.not_eq_true']
     exact ⟨⟨⟨⟨⟨ho, ha⟩, hp⟩, hna⟩, hn⟩, hpn⟩
-  obtain ⟨t', e, w', hsz, hlive, _, hP, _, _, _, _⟩ := appendAfter_wf h.wf hpre
+  obtain ⟨t', e, w', hsz, hlive, _, hP, _, hNx, hFi, _⟩ := appendAfter_wf h.wf hpre
   have sp := appendAfter_samePay e
-  refine ⟨t', e, ⟨w', ?_, by rw [hlive]; exact h.root⟩, sp, hlive, hP⟩
+  refine ⟨t', e, ⟨w', ?_, by rw [hlive]; exact h.root⟩, sp, hlive, hP, hNx, hFi⟩
   intro x hx
   have hi : (slot t' x).infoIndex = (slot t x).infoIndex := congrArg (fun p => p.2.1) (sp.pay x)
   rw [hi]; exact h.info x (by rw [← hlive]; exact hx)
@@ -218,12 +222,13 @@ theorem FP.payOnly {d : Bytes} {obj : Nat} {s s' : PState} (h : FP d s) (hp : Pa
   · intro x hx; rw [hp.scope] at hx; rw [hp.links.live]; exact h.scopes x hx
 
 theorem upd_step {d : Bytes} {s : PState} (h : FP d s) {obj : Nat} (ho : live s.tree obj = true) (f : Obj → Obj)
-    (hf : KeepsLinks f) (hl : KeepsLive s.tree obj f) (hinfo : InfoOK (f (slot s.tree obj)).infoIndex) :
+    (hf : KeepsLinks f) (hl : KeepsLive s.tree obj f) (hinfo : InfoOK (f (slot s.tree obj)).infoIndex)
+    (hm : (f (slot s.tree obj)).opcode = opMethod ↔ (slot s.tree obj).opcode = opMethod := by exact Iff.rfl) :
     ∃ s1, updObj obj f s = .ok ((), s1) ∧ FP d s1 ∧ PayOnly obj s s1 ∧ slot s1.tree obj = f (slot s.tree obj) ∧
       s1.r = s.r := by
   have hlt := live_lt ho
   have sl := sameLinks_setAt s.tree obj f hf hl
-  refine ⟨_, updObj_ex f hlt, ?_, PayOnly.ofSetAt obj s f hf hl, ?_, rfl⟩
+  refine ⟨_, updObj_ex f hlt, ?_, PayOnly.ofSetAt obj s f hf hl hm, ?_, rfl⟩
   · exact ⟨h.inv, treeG_setAt h.tree obj f hf hl (fun _ => hinfo),
       fun x hx => by show live (setAt s.tree obj f) x = true; rw [sl.live]; exact h.scopes x hx⟩
   · show slot (setAt s.tree obj f) obj = _
@@ -303,10 +308,12 @@ theorem append_step {d : Bytes} {s0 s : PState} (h : FP d s) (w0 : WF s0.tree)
     (hp : C13.P s.tree arg = INV) :
     ∃ s1, tree (·.append obj arg) s = .ok ((), s1) ∧ FP d s1 ∧ s1 = { s with tree := s1.tree } ∧
       s1.tree.pool.size = s.tree.pool.size ∧ SamePay s.tree s1.tree ∧ (∀ x, live s1.tree x = live s.tree x) ∧
-      (∀ x, C13.P s1.tree x = if x = arg then obj else C13.P s.tree x) ∧ La s1.tree obj = arg := by
+      (∀ x, C13.P s1.tree x = if x = arg then obj else C13.P s.tree x) ∧ La s1.tree obj = arg ∧
+      (∀ x, Nx s1.tree x = if x = arg then INV else if x = La s.tree obj ∧ La s.tree obj ≠ INV then arg else Nx s.tree x) ∧
+      (∀ x, Fi s1.tree x = if x = obj ∧ La s.tree obj = INV then arg else Fi s.tree x) := by
   have hna := not_anc_new w0 (fun x hx => (hold x hx).2) ha0 s.tree.fuel obj ho
-  obtain ⟨t', e, ht', sp, hlive, hP, hLa⟩ := treeG_append h.tree (hold obj ho).1 ha hp hna
-  refine ⟨_, tree_ex e, h.withTree ht' (fun x hx => by rw [hlive]; exact hx), rfl, sp.size, sp, hlive, hP, ?_⟩
+  obtain ⟨t', e, ht', sp, hlive, hP, hLa, hNx, hFi⟩ := treeG_append h.tree (hold obj ho).1 ha hp hna
+  refine ⟨_, tree_ex e, h.withTree ht' (fun x hx => by rw [hlive]; exact hx), rfl, sp.size, sp, hlive, hP, ?_, hNx, hFi⟩
   show La t' obj = arg
   rw [hLa]; simp
 
@@ -381,7 +388,7 @@ theorem setNameValue_tot {d : Bytes} (hd : d.size + 1024 ≤ 4294967296) {s : PS
   unfold Prog; rw [hr2]; exact hR.2.2.2
 
 theorem setOpcode_tot {d : Bytes} {s : PState} (h : FP d s) {obj : Nat} (ho : live s.tree obj = true) (op : Nat)
-    (hop : op ≠ pOpIntFreedObject) :
+    (hop : op ≠ pOpIntFreedObject) (hnm : op ≠ opMethod) (hcur : (slot s.tree obj).opcode ≠ opMethod) :
     ∃ a s', setOpcode obj op s = .ok (a, s') ∧ FP d s' ∧ PayOnly obj s s' ∧ s'.r = s.r ∧
       slot s'.tree obj = { slot s.tree obj with opcode := op } := by
   unfold setOpcode
@@ -391,6 +398,7 @@ theorem setOpcode_tot {d : Bytes} {s : PState} (h : FP d s) {obj : Nat} (ho : li
     · intro hc; exact absurd hc hop
     · intro hc; exact absurd hc (live_opcode ho)
   obtain ⟨s1, e1, h1, hp1, hsl, hr1⟩ := upd_step h ho (fun o => { o with opcode := op }) (by keeps_links) hl (h.tree.info obj ho)
+    ⟨fun hq => absurd hq hnm, fun hq => absurd hq hcur⟩
   exact ⟨(), s1, e1, h1, hp1, hr1, hsl⟩
 
 theorem finishSimpleArg_tot {d : Bytes} {s : PState} (h : FP d s) {obj : Nat} (ho : live s.tree obj = true) (res : PRes)
@@ -404,11 +412,12 @@ theorem finishSimpleArg_tot {d : Bytes} {s : PState} (h : FP d s) {obj : Nat} (h
   refine bind_ex e1 (pure_ex ⟨rfl, h1, hp1, hr1, by rw [hsl]⟩)
 
 theorem simpleNum_tot {d : Bytes} {s : PState} (h : FP d s) {obj : Nat} (ho : live s.tree obj = true) (op n : Nat)
-    (hop : op ≠ pOpIntFreedObject) (hinfo : InfoOK (pOpcodeTableIndex op true)) :
+    (hop : op ≠ pOpIntFreedObject) (hinfo : InfoOK (pOpcodeTableIndex op true)) (hnm : op ≠ opMethod)
+    (hcur : (slot s.tree obj).opcode ≠ opMethod) :
     ∃ a s', simpleNum d obj op n s = .ok (a, s') ∧ a.1 = some obj ∧ FP d s' ∧ PayOnly obj s s' ∧
       (∃ v, (slot s'.tree obj).value = .u64 v) ∧ ((a.2 = .ok ∧ s'.r.offset = s.r.offset + n) ∨ a.2 = .failed) := by
   unfold simpleNum
-  obtain ⟨_, s1, e1, h1, hp1, hr1, hsl1⟩ := setOpcode_tot h ho op hop
+  obtain ⟨_, s1, e1, h1, hp1, hr1, hsl1⟩ := setOpcode_tot h ho op hop hnm hcur
   refine bind_ex e1 ?_
   have ho1 : live s1.tree obj = true := by rw [hp1.links.live]; exact ho
   obtain ⟨res, s2, e2, h2, hp2, ⟨v, hv⟩, hres⟩ := setNumValue_tot h1 ho1 n
@@ -418,10 +427,11 @@ theorem simpleNum_tot {d : Bytes} {s : PState} (h : FP d s) {obj : Nat} (ho : li
   refine ⟨a, s3, e3, by rw [ha], h3, (hp1.trans hp2).trans hp3, ⟨v, by rw [hv3, hv]⟩, ?_⟩
   rw [ha, hr3, ← hr1]; exact hres
 
-theorem simpleString_tot {d : Bytes} {s : PState} (h : FP d s) {obj : Nat} (ho : live s.tree obj = true) :
+theorem simpleString_tot {d : Bytes} {s : PState} (h : FP d s) {obj : Nat} (ho : live s.tree obj = true)
+    (hcur : (slot s.tree obj).opcode ≠ opMethod) :
     ∃ a s', simpleString d obj s = .ok (a, s') ∧ a.1 = some obj ∧ FP d s' ∧ PayOnly obj s s' ∧ Prog s s' a.2 := by
   unfold simpleString
-  obtain ⟨_, s1, e1, h1, hp1, hr1, hsl1⟩ := setOpcode_tot h ho opStringPrefix (by decide)
+  obtain ⟨_, s1, e1, h1, hp1, hr1, hsl1⟩ := setOpcode_tot h ho opStringPrefix (by decide) (by decide) hcur
   refine bind_ex e1 ?_
   have ho1 : live s1.tree obj = true := by rw [hp1.links.live]; exact ho
   obtain ⟨res, s2, e2, h2, hp2, hres, ⟨v, hv⟩⟩ := setStringValue_tot h1 ho1
@@ -433,10 +443,10 @@ theorem simpleString_tot {d : Bytes} {s : PState} (h : FP d s) {obj : Nat} (ho :
   rw [ha, hr3, ← hr1]; exact hres
 
 theorem simpleName_tot {d : Bytes} (hd : d.size + 1024 ≤ 4294967296) {s : PState} (h : FP d s) {obj : Nat}
-    (ho : live s.tree obj = true) :
+    (ho : live s.tree obj = true) (hcur : (slot s.tree obj).opcode ≠ opMethod) :
     ∃ a s', simpleName d obj s = .ok (a, s') ∧ a.1 = some obj ∧ FP d s' ∧ PayOnly obj s s' ∧ Prog s s' a.2 := by
   unfold simpleName
-  obtain ⟨_, s1, e1, h1, hp1, hr1, hsl1⟩ := setOpcode_tot h ho opIntNamePath (by decide)
+  obtain ⟨_, s1, e1, h1, hp1, hr1, hsl1⟩ := setOpcode_tot h ho opIntNamePath (by decide) (by decide) hcur
   refine bind_ex e1 ?_
   have ho1 : live s1.tree obj = true := by rw [hp1.links.live]; exact ho
   obtain ⟨res, s2, e2, h2, hp2, hres, ⟨v, hv⟩⟩ := setNameValue_tot hd h1 ho1
@@ -450,10 +460,10 @@ theorem simpleName_tot {d : Bytes} (hd : d.size + 1024 ≤ 4294967296) {s : PSta
 /-- `parseSimpleArg(argType)`: one fresh detached object, its value set -/
 theorem parseSimpleArg_tot {d : Bytes} (hd : d.size + 1024 ≤ 4294967296) {s : PState} (h : FP d s)
     (hsz : s.tree.pool.size < INV) (argType : Nat) :
-    ∃ a s' n, parseSimpleArg d argType s = .ok (a, s') ∧ FP d s' ∧ Fresh1 n s s' ∧
+    ∃ a s' n, parseSimpleArg d argType s = .ok (a, s') ∧ FP d s' ∧ Fresh1 n s s' ∧ (slot s'.tree n).opcode ≠ opMethod ∧
       ((a.1 = some n ∧ Prog s s' a.2 ∧ (IsNum argType → ∃ v, (slot s'.tree n).value = .u64 v)) ∨ a = (none, .failed)) := by
   unfold parseSimpleArg
-  obtain ⟨n, s1, e1, h1, f1, hr1, _⟩ := newObject_step h 0 hsz (by decide) info_const.1
+  obtain ⟨n, s1, e1, h1, f1, hr1, hop1, _⟩ := newObject_step h 0 hsz (by decide) info_const.1
   have main : ∃ a s', (do
       let off ← lex offset
       updObj n fun o => { o with amlOffset := off }
@@ -464,6 +474,7 @@ theorem parseSimpleArg_tot {d : Bytes} (hd : d.size + 1024 ≤ 4294967296) {s : 
       else if argType = argTypeString then simpleString d n
       else if argType = argTypeNameString then simpleName d n
       else pure (none, PRes.failed) : P (Option Nat × PRes)) s1 = .ok (a, s') ∧ FP d s' ∧ Fresh1 n s s' ∧
+      (slot s'.tree n).opcode ≠ opMethod ∧
       ((a.1 = some n ∧ Prog s s' a.2 ∧ (IsNum argType → ∃ v, (slot s'.tree n).value = .u64 v)) ∨ a = (none, .failed)) := by
     obtain ⟨off, s2, e2, h2, hR2, hs2⟩ := lex_step (rel_offset d) h1
     refine bind_ex e2 ?_
@@ -474,14 +485,19 @@ theorem parseSimpleArg_tot {d : Bytes} (hd : d.size + 1024 ≤ 4294967296) {s : 
       (h2.tree.info _ hobj)
     refine bind_ex e3 ?_
     have hobj3 : live s3.tree n = true := by rw [hp3.links.live]; exact hobj
+    have hnm3 : (slot s3.tree n).opcode ≠ opMethod := by
+      intro hq
+      have := hp3.mth.1 hq
+      rw [ht2, hop1] at this
+      revert this; decide
     have f3 : Fresh1 n s s3 :=
       Fresh1.thenPay f1 ((PayOnly.ofLex _ hs2 (by rw [hr2]) (by rw [hr2]; exact Nat.le_refl _)).trans hp3)
-    have num : ∀ op k, 1 ≤ k → op ≠ pOpIntFreedObject → InfoOK (pOpcodeTableIndex op true) → IsNum argType →
-        ∃ a s', simpleNum d n op k s3 = .ok (a, s') ∧ FP d s' ∧ Fresh1 n s s' ∧
+    have num : ∀ op k, 1 ≤ k → op ≠ pOpIntFreedObject → op ≠ opMethod → InfoOK (pOpcodeTableIndex op true) → IsNum argType →
+        ∃ a s', simpleNum d n op k s3 = .ok (a, s') ∧ FP d s' ∧ Fresh1 n s s' ∧ (slot s'.tree n).opcode ≠ opMethod ∧
         ((a.1 = some n ∧ Prog s s' a.2 ∧ (IsNum argType → ∃ v, (slot s'.tree n).value = .u64 v)) ∨ a = (none, .failed)) := by
-      intro op k hk hop hinfo _
-      obtain ⟨a, s4, e4, ha, h4, hp4, hv, hres⟩ := simpleNum_tot h3 hobj3 op k hop hinfo
-      refine ⟨a, s4, e4, h4, f3.thenPay hp4, Or.inl ⟨ha, ?_, fun _ => hv⟩⟩
+      intro op k hk hop hnm hinfo _
+      obtain ⟨a, s4, e4, ha, h4, hp4, hv, hres⟩ := simpleNum_tot h3 hobj3 op k hop hinfo hnm hnm3
+      refine ⟨a, s4, e4, h4, f3.thenPay hp4, fun hq => hnm3 (hp4.mth.1 hq), Or.inl ⟨ha, ?_, fun _ => hv⟩⟩
       have := prog_of_num hk hres
       unfold Prog at this ⊢
       have h03 : s.r.offset ≤ s3.r.offset := f3.off
@@ -489,35 +505,35 @@ theorem parseSimpleArg_tot {d : Bytes} (hd : d.size + 1024 ≤ 4294967296) {s : 
       · exact Or.inl ⟨ho, by omega⟩
       · exact Or.inr hf
     split
-    · rename_i hc; exact num _ 1 (by omega) (by decide) info_const.2.1 (Or.inl hc)
+    · rename_i hc; exact num _ 1 (by omega) (by decide) (by decide) info_const.2.1 (Or.inl hc)
     · split
-      · rename_i hc; exact num _ 2 (by omega) (by decide) info_const.2.2.1 (Or.inr (Or.inl hc))
+      · rename_i hc; exact num _ 2 (by omega) (by decide) (by decide) info_const.2.2.1 (Or.inr (Or.inl hc))
       · split
-        · rename_i hc; exact num _ 4 (by omega) (by decide) info_const.2.2.2.1 (Or.inr (Or.inr (Or.inl hc)))
+        · rename_i hc; exact num _ 4 (by omega) (by decide) (by decide) info_const.2.2.2.1 (Or.inr (Or.inr (Or.inl hc)))
         · split
-          · rename_i hc; exact num _ 8 (by omega) (by decide) info_const.2.2.2.2.1 (Or.inr (Or.inr (Or.inr hc)))
+          · rename_i hc; exact num _ 8 (by omega) (by decide) (by decide) info_const.2.2.2.2.1 (Or.inr (Or.inr (Or.inr hc)))
           · rename_i n1 n2 n3 n4
             have notNum : ¬ IsNum argType := by
               intro hn; rcases hn with h | h | h | h <;> contradiction
             split
-            · obtain ⟨a, s4, e4, ha, h4, hp4, hres⟩ := simpleString_tot h3 hobj3
-              refine ⟨a, s4, e4, h4, f3.thenPay hp4, Or.inl ⟨ha, ?_, fun hn => absurd hn notNum⟩⟩
+            · obtain ⟨a, s4, e4, ha, h4, hp4, hres⟩ := simpleString_tot h3 hobj3 hnm3
+              refine ⟨a, s4, e4, h4, f3.thenPay hp4, fun hq => hnm3 (hp4.mth.1 hq), Or.inl ⟨ha, ?_, fun hn => absurd hn notNum⟩⟩
               unfold Prog at hres ⊢
               have h03 : s.r.offset ≤ s3.r.offset := f3.off
               rcases hres with ⟨ho, hl⟩ | hf
               · exact Or.inl ⟨ho, by omega⟩
               · exact Or.inr hf
             · split
-              · obtain ⟨a, s4, e4, ha, h4, hp4, hres⟩ := simpleName_tot hd h3 hobj3
-                refine ⟨a, s4, e4, h4, f3.thenPay hp4, Or.inl ⟨ha, ?_, fun hn => absurd hn notNum⟩⟩
+              · obtain ⟨a, s4, e4, ha, h4, hp4, hres⟩ := simpleName_tot hd h3 hobj3 hnm3
+                refine ⟨a, s4, e4, h4, f3.thenPay hp4, fun hq => hnm3 (hp4.mth.1 hq), Or.inl ⟨ha, ?_, fun hn => absurd hn notNum⟩⟩
                 unfold Prog at hres ⊢
                 have h03 : s.r.offset ≤ s3.r.offset := f3.off
                 rcases hres with ⟨ho, hl⟩ | hf
                 · exact Or.inl ⟨ho, by omega⟩
                 · exact Or.inr hf
-              · exact pure_ex ⟨h3, f3, Or.inr rfl⟩
-  obtain ⟨a, s', e, h', f', hres⟩ := main
-  exact ⟨a, s', n, bind_ex' e1 e, h', f', hres⟩
+              · exact pure_ex ⟨h3, f3, hnm3, Or.inr rfl⟩
+  obtain ⟨a, s', e, h', f', hnm', hres⟩ := main
+  exact ⟨a, s', n, bind_ex' e1 e, h', f', hnm', hres⟩
 
 /-! ## field lists -/
 
@@ -563,8 +579,10 @@ theorem readFieldName_tot {d : Bytes} {field : Nat} (n : Nat) : ∀ (i : Nat) {s
 
 
 /-- steps that leave both stacks alone: the reader goes back at most `b` bytes, at most `m` objects are created,
-parents of existing objects are untouched -/
-structure GrowE (b m : Nat) (s s' : PState) : Prop where
+parents of existing objects are untouched.  `T` = the parents whose argument lists the step may change: outside of
+them the first-argument links, the sibling links and the payloads of attached objects are as before; no object
+becomes or stops being a `Method` and no new object is one. -/
+structure GrowE (T : Nat → Prop) (b m : Nat) (s s' : PState) : Prop where
   offb : s.r.offset ≤ s'.r.offset + b
   pool : s.tree.pool.size ≤ s'.tree.pool.size
   poolUp : s'.tree.pool.size ≤ s.tree.pool.size + m
@@ -573,61 +591,214 @@ structure GrowE (b m : Nat) (s s' : PState) : Prop where
   scope : s'.scopeStack = s.scopeStack
   pkg : s'.pkgEndStack = s.pkgEndStack
   same : s'.allBlocks = s.allBlocks ∧ s'.tableHandle = s.tableHandle ∧ s'.streamEnd = s.streamEnd
+  fiK : ∀ x, live s.tree x = true → ¬ T x → Fi s'.tree x = Fi s.tree x
+  kidK : ∀ x, live s.tree x = true → C13.P s.tree x ≠ INV → ¬ T (C13.P s.tree x) →
+    Nx s'.tree x = Nx s.tree x ∧ Pay (slot s'.tree x) = Pay (slot s.tree x)
+  mK : ∀ x, live s.tree x = true → ((slot s'.tree x).opcode = opMethod ↔ (slot s.tree x).opcode = opMethod)
+  newOp : ∀ y, live s.tree y = false → live s'.tree y = true → (slot s'.tree y).opcode ≠ opMethod
 
-theorem GrowE.refl (s : PState) : GrowE 0 0 s s :=
-  ⟨by omega, Nat.le_refl _, by omega, fun _ _ => rfl, fun _ h => h, rfl, rfl, rfl, rfl, rfl⟩
+variable {T : Nat → Prop}
 
-theorem GrowE.trans {b1 m1 b2 m2 : Nat} {a b c : PState} (h1 : GrowE b1 m1 a b) (h2 : GrowE b2 m2 b c) :
-    GrowE (b1 + b2) (m1 + m2) a c :=
-  ⟨by have := h1.offb; have := h2.offb; omega, Nat.le_trans h1.pool h2.pool, by have := h1.poolUp; have := h2.poolUp; omega,
+theorem GrowE.refl (s : PState) : GrowE T 0 0 s s :=
+  ⟨by omega, Nat.le_refl _, by omega, fun _ _ => rfl, fun _ h => h, rfl, rfl, ⟨rfl, rfl, rfl⟩,
+   fun _ _ _ => rfl, fun _ _ _ _ => ⟨rfl, rfl⟩, fun _ _ => Iff.rfl, fun y h1 h2 => by rw [h1] at h2; cases h2⟩
+
+theorem GrowE.trans {b1 m1 b2 m2 : Nat} {a b c : PState} (h1 : GrowE T b1 m1 a b) (h2 : GrowE T b2 m2 b c) :
+    GrowE T (b1 + b2) (m1 + m2) a c := by
+  refine ⟨by have := h1.offb; have := h2.offb; omega, Nat.le_trans h1.pool h2.pool, by have := h1.poolUp; have := h2.poolUp; omega,
    fun x hx => by rw [h2.oldP x (h1.oldLive x hx), h1.oldP x hx], fun x hx => h2.oldLive x (h1.oldLive x hx),
    by rw [h2.scope, h1.scope],
-   by rw [h2.pkg, h1.pkg], ⟨by rw [h2.same.1, h1.same.1], by rw [h2.same.2.1, h1.same.2.1], by rw [h2.same.2.2, h1.same.2.2]⟩⟩
+   by rw [h2.pkg, h1.pkg], ⟨by rw [h2.same.1, h1.same.1], by rw [h2.same.2.1, h1.same.2.1], by rw [h2.same.2.2, h1.same.2.2]⟩,
+   ?_, ?_, ?_, ?_⟩
+  · intro x hx ht
+    rw [h2.fiK x (h1.oldLive x hx) ht, h1.fiK x hx ht]
+  · intro x hx hp ht
+    obtain ⟨n1, p1⟩ := h1.kidK x hx hp ht
+    obtain ⟨n2, p2⟩ := h2.kidK x (h1.oldLive x hx) (by rw [h1.oldP x hx]; exact hp) (by rw [h1.oldP x hx]; exact ht)
+    exact ⟨by rw [n2, n1], by rw [p2, p1]⟩
+  · intro x hx
+    exact (h2.mK x (h1.oldLive x hx)).trans (h1.mK x hx)
+  · intro y hy hy'
+    cases hb : live b.tree y with
+    | true => exact fun hq => h1.newOp y hy hb ((h2.mK y hb).1 hq)
+    | false => exact h2.newOp y hb hy'
 
-theorem GrowE.weaken {b m b' m' : Nat} {a c : PState} (h : GrowE b m a c) (hb : b ≤ b') (hm : m ≤ m') : GrowE b' m' a c :=
-  ⟨by have := h.offb; omega, h.pool, by have := h.poolUp; omega, h.oldP, h.oldLive, h.scope, h.pkg, h.same⟩
+theorem GrowE.weaken {b m b' m' : Nat} {a c : PState} (h : GrowE T b m a c) (hb : b ≤ b') (hm : m ≤ m') : GrowE T b' m' a c :=
+  ⟨by have := h.offb; omega, h.pool, by have := h.poolUp; omega, h.oldP, h.oldLive, h.scope, h.pkg, h.same,
+   h.fiK, h.kidK, h.mK, h.newOp⟩
 
-theorem pay_growE {obj : Nat} {s s' : PState} (h : PayOnly obj s s') : GrowE 0 0 s s' :=
-  ⟨by have := h.off; omega, by rw [h.links.size]; exact Nat.le_refl _, by rw [h.links.size]; omega,
-   fun x _ => h.links.p x, fun x hx => by rw [h.links.live]; exact hx, h.scope, h.pkg, h.same⟩
+/-- the same growth with a re-proved offset bound -/
+theorem GrowE.reoff {b m b' m' : Nat} {a c : PState} (h : GrowE T b m a c) (hb : a.r.offset ≤ c.r.offset + b') (hm : m ≤ m') :
+    GrowE T b' m' a c :=
+  ⟨hb, h.pool, by have := h.poolUp; omega, h.oldP, h.oldLive, h.scope, h.pkg, h.same, h.fiK, h.kidK, h.mK, h.newOp⟩
 
-theorem Fresh1.growE {n : Nat} {s s' : PState} (h : Fresh1 n s s') : GrowE 0 1 s s' :=
-  ⟨by have := h.off; omega, h.size.1, h.size.2,
+/-- the same growth seen from a final state that differs from `c` in the reader only -/
+theorem GrowE.thenLex {b m b' : Nat} {a c c' : PState} (h : GrowE T b m a c) (hc : c' = { c with r := c'.r })
+    (hb : a.r.offset ≤ c'.r.offset + b') : GrowE T b' m a c' := by
+  have ht : c'.tree = c.tree := by rw [hc]
+  refine ⟨hb, by rw [ht]; exact h.pool, by rw [ht]; exact h.poolUp, fun x hx => by rw [ht]; exact h.oldP x hx,
+    fun x hx => by rw [ht]; exact h.oldLive x hx, by rw [hc]; exact h.scope, by rw [hc]; exact h.pkg, by rw [hc]; exact h.same,
+    fun x hx hT => by rw [ht]; exact h.fiK x hx hT, fun x hx hp hT => by rw [ht]; exact h.kidK x hx hp hT,
+    fun x hx => by rw [ht]; exact h.mK x hx, fun y h1 h2 => by rw [ht] at h2 ⊢; exact h.newOp y h1 h2⟩
+
+/-- a payload-only step on a detached object -/
+theorem pay_growE {obj : Nat} {s s' : PState} (h : PayOnly obj s s') (hp : C13.P s.tree obj = INV) : GrowE T 0 0 s s' := by
+  refine ⟨by have := h.off; omega, by rw [h.links.size]; exact Nat.le_refl _, by rw [h.links.size]; omega,
+   fun x _ => h.links.p x, fun x hx => by rw [h.links.live]; exact hx, h.scope, h.pkg, h.same,
+   fun x _ _ => h.links.fi x, ?_, ?_, ?_⟩
+  · intro x _ hpx _
+    have hne : x ≠ obj := fun e => hpx (by rw [e]; exact hp)
+    exact ⟨h.links.nx x, by rw [h.others x hne]⟩
+  · intro x _
+    by_cases hx : x = obj
+    · rw [hx]; exact h.mth
+    · rw [h.others x hx]
+  · intro y h1 h2
+    rw [h.links.live, h1] at h2; cases h2
+
+/-- a fresh object that is not a `Method` -/
+theorem Fresh1.growE {n : Nat} {s s' : PState} (h : Fresh1 n s s') (hnm : (slot s'.tree n).opcode ≠ opMethod) :
+    GrowE T 0 1 s s' := by
+  refine ⟨by have := h.off; omega, h.size.1, h.size.2,
    fun x hx => by unfold C13.P; rw [h.old x (h.ne hx)], fun x hx => by rw [h.livex x (h.ne hx)]; exact hx,
-   h.scope, h.pkg, h.same⟩
+   h.scope, h.pkg, h.same, fun x hx _ => by unfold Fi; rw [h.old x (h.ne hx)],
+   fun x hx _ _ => ⟨by unfold Nx; rw [h.old x (h.ne hx)], by rw [h.old x (h.ne hx)]⟩,
+   fun x hx => by rw [h.old x (h.ne hx)], ?_⟩
+  intro y h1 h2
+  by_cases hy : y = n
+  · rw [hy]; exact hnm
+  · rw [h.livex y hy, h1] at h2; cases h2
 
 /-- a reader-only step -/
 theorem GrowE.ofLex {s s1 : PState} (b : Nat) (hs1 : s1 = { s with r := s1.r }) (ho : s.r.offset ≤ s1.r.offset + b) :
-    GrowE b 0 s s1 := by
-  have ht : s1.tree = s.tree := by rw [hs1]
-  refine ⟨ho, by rw [ht]; exact Nat.le_refl _, by rw [ht]; omega, fun x _ => by rw [ht], fun x hx => by rw [ht]; exact hx,
-    by rw [hs1], by rw [hs1], ?_⟩
-  rw [hs1]; exact ⟨rfl, rfl, rfl⟩
+    GrowE T b 0 s s1 :=
+  (GrowE.refl s).thenLex hs1 ho
 
 /-- turn equal-stack growth without backward movement into `Grow` -/
-theorem GrowE.grow {m : Nat} {s s' : PState} (h : GrowE 0 m s s') : Grow m 0 s s' :=
+theorem GrowE.grow {m : Nat} {s s' : PState} (h : GrowE T 0 m s s') : Grow m 0 s s' :=
   ⟨by have := h.offb; omega, h.pool, by have := h.poolUp; have := h.offb; omega, h.oldP, h.oldLive,
    by rw [h.scope]; exact Nat.le_refl _, by rw [h.pkg]; exact Nat.le_refl _, by rw [h.scope, h.pkg]; omega,
    by rw [h.pkg]; have := h.offb; omega, h.same⟩
 
-theorem GrowE.hold {b m : Nat} {s0 s : PState} (gr : GrowE b m s0 s) :
+theorem GrowE.hold {b m : Nat} {s0 s : PState} (gr : GrowE T b m s0 s) :
     ∀ x, live s0.tree x = true → live s.tree x = true ∧ C13.P s.tree x = C13.P s0.tree x :=
   fun x hx => ⟨gr.oldLive x hx, gr.oldP x hx⟩
 
-/-- growth up to `s1`, then an append of an object that did not exist in the base state -/
-theorem GrowE.thenAppend {b m : Nat} {s s1 s2 : PState} (g : GrowE b m s s1) {obj arg : Nat}
+/-- growth up to `s1`, then an append, under a parent in `T`, of an object that did not exist in the base state -/
+theorem GrowE.thenAppend {b m : Nat} {s s1 s2 : PState} (g : GrowE T b m s s1) {obj arg : Nat}
     (hs2 : s2 = { s1 with tree := s2.tree }) (hsz : s2.tree.pool.size = s1.tree.pool.size)
     (hl : ∀ x, live s2.tree x = live s1.tree x)
-    (hP : ∀ x, C13.P s2.tree x = if x = arg then obj else C13.P s1.tree x) (hnew : live s.tree arg = false) :
-    GrowE b m s s2 := by
+    (hP : ∀ x, C13.P s2.tree x = if x = arg then obj else C13.P s1.tree x) (hnew : live s.tree arg = false)
+    (hT : T obj ∨ (WF s.tree ∧ live s.tree obj = false)) (w1 : WF s1.tree) (ho1 : live s1.tree obj = true) (sp : SamePay s1.tree s2.tree)
+    (hNx : ∀ x, Nx s2.tree x = if x = arg then INV else if x = La s1.tree obj ∧ La s1.tree obj ≠ INV then arg else Nx s1.tree x)
+    (hFi : ∀ x, Fi s2.tree x = if x = obj ∧ La s1.tree obj = INV then arg else Fi s1.tree x) :
+    GrowE T b m s s2 := by
   have hr : s2.r = s1.r := by rw [hs2]
+  have hne : ∀ x, live s.tree x = true → x ≠ arg := fun x hx e => by rw [e, hnew] at hx; cases hx
   refine ⟨by rw [hr]; exact g.offb, by rw [hsz]; exact g.pool, by rw [hsz]; exact g.poolUp, ?_,
     fun x hx => by rw [hl]; exact g.oldLive x hx, by rw [hs2]; exact g.scope,
-    by rw [hs2]; exact g.pkg, by rw [hs2]; exact g.same⟩
-  intro x hx
-  have hne : x ≠ arg := fun e => by rw [e, hnew] at hx; cases hx
-  rw [hP, if_neg hne]
-  exact g.oldP x hx
+    by rw [hs2]; exact g.pkg, by rw [hs2]; exact g.same, ?_, ?_, ?_, ?_⟩
+  · intro x hx
+    rw [hP, if_neg (hne x hx)]
+    exact g.oldP x hx
+  · intro x hx hTx
+    have hxo : x ≠ obj := by
+      intro e
+      rcases hT with hT | ⟨_, hno⟩
+      · exact hTx (by rw [e]; exact hT)
+      · rw [e, hno] at hx; cases hx
+    rw [hFi, if_neg (fun hc => hxo hc.1)]
+    exact g.fiK x hx hTx
+  · intro x hx hp hTx
+    have hpay : Pay (slot s2.tree x) = Pay (slot s1.tree x) := sp.pay x
+    rw [hNx, if_neg (hne x hx)]
+    split
+    · rename_i hc
+      exfalso
+      have hla := ((w1.lP ho1).la hc.2).1
+      rw [← hc.1, g.oldP x hx] at hla
+      rcases hT with hT | ⟨w, hno⟩
+      · exact hTx (by rw [hla]; exact hT)
+      · rcases (w.lP hx).lp with h0 | h0
+        · exact hp h0
+        · rw [hla, hno] at h0; cases h0
+    · obtain ⟨n1, p1⟩ := g.kidK x hx hp hTx
+      exact ⟨n1, by rw [hpay, p1]⟩
+  · intro x hx
+    have ho : (slot s2.tree x).opcode = (slot s1.tree x).opcode := congrArg (fun p => p.1) (sp.pay x)
+    rw [ho]; exact g.mK x hx
+  · intro y h1 h2
+    have ho : (slot s2.tree y).opcode = (slot s1.tree y).opcode := congrArg (fun p => p.1) (sp.pay y)
+    rw [ho]
+    exact g.newOp y h1 (by rw [← hl]; exact h2)
+
+/-- the frame part of `GrowE` on its own -/
+structure FrmS (T : Nat → Prop) (s s' : PState) : Prop where
+  oldP : ∀ x, live s.tree x = true → C13.P s'.tree x = C13.P s.tree x
+  oldLive : ∀ x, live s.tree x = true → live s'.tree x = true
+  fiK : ∀ x, live s.tree x = true → ¬ T x → Fi s'.tree x = Fi s.tree x
+  kidK : ∀ x, live s.tree x = true → C13.P s.tree x ≠ INV → ¬ T (C13.P s.tree x) →
+    Nx s'.tree x = Nx s.tree x ∧ Pay (slot s'.tree x) = Pay (slot s.tree x)
+  mK : ∀ x, live s.tree x = true → ((slot s'.tree x).opcode = opMethod ↔ (slot s.tree x).opcode = opMethod)
+  newOp : ∀ y, live s.tree y = false → live s'.tree y = true → (slot s'.tree y).opcode ≠ opMethod
+
+theorem GrowE.frmS {b m : Nat} {s s' : PState} (g : GrowE T b m s s') : FrmS T s s' :=
+  ⟨g.oldP, g.oldLive, g.fiK, g.kidK, g.mK, g.newOp⟩
+
+theorem FrmS.refl (s : PState) : FrmS T s s := (GrowE.refl (T := T) s).frmS
+
+theorem FrmS.trans {a b c : PState} (h1 : FrmS T a b) (h2 : FrmS T b c) : FrmS T a c := by
+  refine ⟨fun x hx => by rw [h2.oldP x (h1.oldLive x hx), h1.oldP x hx], fun x hx => h2.oldLive x (h1.oldLive x hx), ?_, ?_, ?_, ?_⟩
+  · intro x hx ht
+    rw [h2.fiK x (h1.oldLive x hx) ht, h1.fiK x hx ht]
+  · intro x hx hp ht
+    obtain ⟨n1, p1⟩ := h1.kidK x hx hp ht
+    obtain ⟨n2, p2⟩ := h2.kidK x (h1.oldLive x hx) (by rw [h1.oldP x hx]; exact hp) (by rw [h1.oldP x hx]; exact ht)
+    exact ⟨by rw [n2, n1], by rw [p2, p1]⟩
+  · intro x hx
+    exact (h2.mK x (h1.oldLive x hx)).trans (h1.mK x hx)
+  · intro y hy hy'
+    cases hb : live b.tree y with
+    | true => exact fun hq => h1.newOp y hy hb ((h2.mK y hb).1 hq)
+    | false => exact h2.newOp y hb hy'
+
+/-- growth up to `s1`, then an `appendAfter`, under a parent in `T`, of an object that did not exist in the base state -/
+theorem GrowE.thenAppendAfter {b m : Nat} {s s1 s2 : PState} (g : GrowE T b m s s1) {obj arg nextTo : Nat}
+    (hs2 : s2 = { s1 with tree := s2.tree }) (hsz : s2.tree.pool.size = s1.tree.pool.size)
+    (hl : ∀ x, live s2.tree x = live s1.tree x)
+    (hP : ∀ x, C13.P s2.tree x = if x = arg then obj else C13.P s1.tree x) (hnew : live s.tree arg = false)
+    (hT : T obj) (hpn : C13.P s1.tree nextTo = obj) (sp : SamePay s1.tree s2.tree)
+    (hNx : ∀ x, Nx s2.tree x = if x = arg then Nx s1.tree nextTo else if x = nextTo then arg else Nx s1.tree x)
+    (hFi : ∀ x, Fi s2.tree x = Fi s1.tree x) :
+    GrowE T b m s s2 := by
+  have hr : s2.r = s1.r := by rw [hs2]
+  have hne : ∀ x, live s.tree x = true → x ≠ arg := fun x hx e => by rw [e, hnew] at hx; cases hx
+  refine ⟨by rw [hr]; exact g.offb, by rw [hsz]; exact g.pool, by rw [hsz]; exact g.poolUp, ?_,
+    fun x hx => by rw [hl]; exact g.oldLive x hx, by rw [hs2]; exact g.scope,
+    by rw [hs2]; exact g.pkg, by rw [hs2]; exact g.same, ?_, ?_, ?_, ?_⟩
+  · intro x hx
+    rw [hP, if_neg (hne x hx)]
+    exact g.oldP x hx
+  · intro x hx hTx
+    rw [hFi]
+    exact g.fiK x hx hTx
+  · intro x hx hp hTx
+    have hpay : Pay (slot s2.tree x) = Pay (slot s1.tree x) := sp.pay x
+    rw [hNx, if_neg (hne x hx)]
+    split
+    · rename_i hc
+      exfalso
+      subst hc
+      exact hTx (by rw [← g.oldP x hx, hpn]; exact hT)
+    · obtain ⟨n1, p1⟩ := g.kidK x hx hp hTx
+      exact ⟨n1, by rw [hpay, p1]⟩
+  · intro x hx
+    have ho : (slot s2.tree x).opcode = (slot s1.tree x).opcode := congrArg (fun p => p.1) (sp.pay x)
+    rw [ho]; exact g.mK x hx
+  · intro y h1 h2
+    have ho : (slot s2.tree y).opcode = (slot s1.tree y).opcode := congrArg (fun p => p.1) (sp.pay y)
+    rw [ho]
+    exact g.newOp y h1 (by rw [← hl]; exact h2)
 
 /-- what the field-list loop needs to know about its object and its insertion point -/
 def FieldInv (s : PState) (curObj : Nat) (st : FieldSt) : Prop :=
@@ -635,13 +806,13 @@ def FieldInv (s : PState) (curObj : Nat) (st : FieldSt) : Prop :=
   C13.P s.tree st.appendAfter = C13.P s.tree curObj
 
 theorem FieldInv.mono {s s' : PState} {curObj : Nat} {st : FieldSt} {b m : Nat} (h : FieldInv s curObj st)
-    (g : GrowE b m s s') : FieldInv s' curObj st :=
+    (g : GrowE T b m s s') : FieldInv s' curObj st :=
   ⟨g.oldLive _ h.1, g.oldLive _ h.2.1, by rw [g.oldP _ h.1]; exact h.2.2.1,
    by rw [g.oldP _ h.2.1, g.oldP _ h.1]; exact h.2.2.2⟩
 
 /-- `case 0x00: // ReservedField` -/
 theorem fieldReserved_tot {d : Bytes} {s : PState} (h : FP d s) (st : FieldSt) :
-    ∃ a s', fieldReserved d st s = .ok (a, s') ∧ FP d s' ∧ GrowE 0 0 s s' ∧
+    ∃ a s', fieldReserved d st s = .ok (a, s') ∧ FP d s' ∧ GrowE T 0 0 s s' ∧
       (∀ st', a = .inr st' → st'.appendAfter = st.appendAfter ∧ s.r.offset < s'.r.offset) := by
   unfold fieldReserved
   obtain ⟨pr, s1, e1, h1, hR, hs1⟩ := lex_step (rel_parsePkgLength d) h
@@ -663,12 +834,12 @@ theorem num1_step {d : Bytes} {s : PState} (h : FP d s) :
   exact ⟨v, s1, e1, h1, hs1, hR.2.1, hR.2.2.2⟩
 
 theorem fieldAccess_tot {d : Bytes} {s : PState} (h : FP d s) (st : FieldSt) :
-    ∃ a s', fieldAccess d st s = .ok (a, s') ∧ FP d s' ∧ GrowE 0 0 s s' ∧
+    ∃ a s', fieldAccess d st s = .ok (a, s') ∧ FP d s' ∧ GrowE T 0 0 s s' ∧
       (∀ st', a = .inr st' → st'.appendAfter = st.appendAfter ∧ s.r.offset < s'.r.offset) := by
   unfold fieldAccess
   obtain ⟨v1, s1, e1, h1, hs1, hle1, hres1⟩ := num1_step h
   refine bind_ex e1 ?_
-  have g1 := GrowE.ofLex 0 hs1 (by omega)
+  have g1 := GrowE.ofLex (T := T) 0 hs1 (by omega)
   rcases hres1 with ⟨hok1, hoff1⟩ | hf1
   · rw [if_neg (by rw [hok1]; decide)]
     obtain ⟨v2, s2, e2, h2, hs2, hle2, hres2⟩ := num1_step h1
@@ -685,12 +856,12 @@ theorem fieldAccess_tot {d : Bytes} {s : PState} (h : FP d s) (st : FieldSt) :
     exact pure_ex ⟨h1, g1, fun st' hc => by cases hc⟩
 
 theorem fieldExtAccess_tot {d : Bytes} {s : PState} (h : FP d s) (st : FieldSt) :
-    ∃ a s', fieldExtAccess d st s = .ok (a, s') ∧ FP d s' ∧ GrowE 0 0 s s' ∧
+    ∃ a s', fieldExtAccess d st s = .ok (a, s') ∧ FP d s' ∧ GrowE T 0 0 s s' ∧
       (∀ st', a = .inr st' → st'.appendAfter = st.appendAfter ∧ s.r.offset < s'.r.offset) := by
   unfold fieldExtAccess
   obtain ⟨v1, s1, e1, h1, hs1, hle1, hres1⟩ := num1_step h
   refine bind_ex e1 ?_
-  have g1 := GrowE.ofLex 0 hs1 (by omega)
+  have g1 := GrowE.ofLex (T := T) 0 hs1 (by omega)
   rcases hres1 with ⟨hok1, hoff1⟩ | hf1
   · rw [if_neg (by rw [hok1]; decide)]
     obtain ⟨v2, s2, e2, h2, hs2, hle2, hres2⟩ := num1_step h1
@@ -715,16 +886,16 @@ theorem fieldExtAccess_tot {d : Bytes} {s : PState} (h : FP d s) (st : FieldSt) 
 
 /-- `default:` a named field -/
 theorem fieldNamed_tot {d : Bytes} {s : PState} (h : FP d s) (curObj : Nat) (st : FieldSt) (hfi : FieldInv s curObj st)
-    (hsz : s.tree.pool.size < INV) :
-    ∃ a s', fieldNamed d curObj st s = .ok (a, s') ∧ FP d s' ∧ GrowE 1 1 s s' ∧
+    (hsz : s.tree.pool.size < INV) (hT : T (C13.P s.tree curObj)) :
+    ∃ a s', fieldNamed d curObj st s = .ok (a, s') ∧ FP d s' ∧ GrowE T 1 1 s s' ∧
       (∀ st', a = .inr st' → FieldInv s' curObj st' ∧ s.r.offset + 3 < s'.r.offset) := by
   unfold fieldNamed
   obtain ⟨_, s1, e1, h1, hR1, hs1⟩ := lex_step (rel_unreadByte d) h
   refine bind_ex e1 ?_
-  have g1 : GrowE 1 0 s s1 := GrowE.ofLex 1 hs1 (by have := hR1.2; omega)
+  have g1 : GrowE T 1 0 s s1 := GrowE.ofLex (T := T) 1 hs1 (by have := hR1.2; omega)
   have ht1 : s1.tree = s.tree := by rw [hs1]
   have hsz1 : s1.tree.pool.size < INV := by rw [ht1]; exact hsz
-  obtain ⟨n, s2, e2, h2, f2, hr2, _⟩ := newObject_step h1 opIntNamedField hsz1 (by decide) info_const.2.2.2.2.2.2.2.2.2.2.1
+  obtain ⟨n, s2, e2, h2, f2, hr2, hop2, _⟩ := newObject_step h1 opIntNamedField hsz1 (by decide) info_const.2.2.2.2.2.2.2.2.2.2.1
   have main : ∃ a s', (do
       let off ← lex offset
       updObj n fun o => { o with amlOffset := off }
@@ -736,7 +907,7 @@ theorem fieldNamed_tot {d : Bytes} {s : PState} (h : FP d s) (curObj : Nat) (st 
       let parent ← derefP (← objectAt co.parentIndex)
       tree (·.appendAfter parent n st.appendAfter)
       pure (.inr { st with appendAfter := n, nextFieldOffset := u32 (st.nextFieldOffset + pr.1) }) : P FieldStep) s2 = .ok (a, s') ∧
-      FP d s' ∧ GrowE 1 1 s s' ∧ (∀ st', a = .inr st' → FieldInv s' curObj st' ∧ s.r.offset + 3 < s'.r.offset) := by
+      FP d s' ∧ GrowE T 1 1 s s' ∧ (∀ st', a = .inr st' → FieldInv s' curObj st' ∧ s.r.offset + 3 < s'.r.offset) := by
     obtain ⟨off, s3, e3, h3, hR3, hs3⟩ := lex_step (rel_offset d) h2
     refine bind_ex e3 ?_
     have hr3 : s3.r = s2.r := hR3.2
@@ -748,10 +919,15 @@ theorem fieldNamed_tot {d : Bytes} {s : PState} (h : FP d s) (curObj : Nat) (st 
     have hf4 : live s4.tree n = true := by rw [hp4.links.live]; exact hf3
     obtain ⟨b, s5, e5, h5, hp5, hoff5⟩ := readFieldName_tot (d := d) (field := n) Gen.C12.amlNameLen 0 h4 hf4
     refine bind_ex e5 ?_
-    have f5 : Fresh1 n s1 s5 :=
-      f2.thenPay (((PayOnly.ofLex _ hs3 (by rw [hr3]) (by rw [hr3]; exact Nat.le_refl _)).trans hp4).trans hp5)
-    have g15 : GrowE 0 1 s1 s5 := f5.growE
-    have g5 : GrowE 1 1 s s5 := g1.trans g15
+    have p25 : PayOnly n s2 s5 := ((PayOnly.ofLex _ hs3 (by rw [hr3]) (by rw [hr3]; exact Nat.le_refl _)).trans hp4).trans hp5
+    have f5 : Fresh1 n s1 s5 := f2.thenPay p25
+    have hnm5 : (slot s5.tree n).opcode ≠ opMethod := by
+      intro hq
+      have := p25.mth.1 hq
+      rw [hop2] at this
+      revert this; decide
+    have g15 : GrowE T 0 1 s1 s5 := f5.growE hnm5
+    have g5 : GrowE T 1 1 s s5 := g1.trans g15
     cases b with
     | false => exact pure_ex ⟨h5, g5, fun st' hc => by cases hc⟩
     | true =>
@@ -764,8 +940,8 @@ theorem fieldNamed_tot {d : Bytes} {s : PState} (h : FP d s) (curObj : Nat) (st 
       · rw [if_pos (by rw [hf]; decide)]
         exact pure_ex ⟨h6, g5.trans (GrowE.ofLex 0 hs6 (by rw [hr]; omega)), fun st' hc => by cases hc⟩
       · rw [if_neg (by rw [hok]; decide)]
-        have g16 : GrowE 0 1 s1 s6 := g15.trans (GrowE.ofLex 0 hs6 (by omega))
-        have g6 : GrowE 1 1 s s6 := g1.trans g16
+        have g16 : GrowE T 0 1 s1 s6 := g15.trans (GrowE.ofLex 0 hs6 (by omega))
+        have g6 : GrowE T 1 1 s s6 := g1.trans g16
         have hc6 : live s6.tree curObj = true := g6.oldLive _ hfi.1
         refine bind_ex (getObj_live hc6) ?_
         have hfield6 : live s6.tree n = true := by rw [ht6]; exact f5.liven
@@ -773,8 +949,8 @@ theorem fieldNamed_tot {d : Bytes} {s : PState} (h : FP d s) (curObj : Nat) (st 
           (fun o => { o with value := Val.field st.nextFieldOffset pr.1 st.accessLength st.accessType st.accessAttrib st.lockType st.updateType st.connectionIndex (slot s6.tree curObj).index })
           (by keeps_links) Iff.rfl (h6.tree.info _ hfield6)
         refine bind_ex e7 ?_
-        have g17 : GrowE 0 1 s1 s7 := g16.trans (pay_growE hp7)
-        have g7 : GrowE 1 1 s s7 := g1.trans g17
+        have g17 : GrowE T 0 1 s1 s7 := g16.trans (pay_growE hp7 (by rw [ht6]; exact f5.pn))
+        have g7 : GrowE T 1 1 s s7 := g1.trans g17
         have fi7 : FieldInv s7 curObj st := hfi.mono g7
         have hpar : C13.P s7.tree curObj = (slot s6.tree curObj).parentIndex := by
           rw [hp7.links.p]; rfl
@@ -796,22 +972,18 @@ theorem fieldNamed_tot {d : Bytes} {s : PState} (h : FP d s) (curObj : Nat) (st 
           · exact h0
         have hna := not_anc_new h1.tree.wf (fun x hx => g17.oldP x hx) f2.nlive s7.tree.fuel _ hparl1
         rw [← hpar1] at hna
-        obtain ⟨t', e8, ht', sp8, hl8, hP8⟩ := treeG_appendAfter h7.tree hparl hfield7 hpf hna fi7.2.1 fi7.2.2.2
+        obtain ⟨t', e8, ht', sp8, hl8, hP8, hNx8, hFi8⟩ := treeG_appendAfter h7.tree hparl hfield7 hpf hna fi7.2.1 fi7.2.2.2
         have sz8 : t'.pool.size = s7.tree.pool.size := sp8.size
         have hnn : ∀ x, live s.tree x = true → x ≠ n := by
           intro x hx e
           have : live s1.tree x = true := by rw [ht1]; exact hx
           rw [e, f2.nlive] at this; cases this
         refine bind_ex (tree_ex e8) (pure_ex ⟨h7.withTree ht' (fun x hx => by rw [hl8]; exact hx), ?_, ?_⟩)
-        · refine ⟨g7.offb, by show s.tree.pool.size ≤ t'.pool.size; rw [sz8]; exact g7.pool,
-            by show t'.pool.size ≤ _; rw [sz8]; exact g7.poolUp, ?_, ?_, g7.scope, g7.pkg, g7.same⟩
-          · intro x hx
-            show C13.P t' x = _
-            rw [hP8, if_neg (hnn x hx)]
-            exact g7.oldP x hx
-          · intro x hx
-            show live t' x = true
-            rw [hl8]; exact g7.oldLive x hx
+        · exact g7.thenAppendAfter (s2 := { s7 with tree := t' }) rfl sz8 hl8 hP8
+            (by cases hq : live s.tree n with
+                | false => rfl
+                | true => exact absurd rfl (hnn n hq))
+            (by rw [g7.oldP _ hfi.1]; exact hT) fi7.2.2.2 sp8 hNx8 hFi8
         · intro st' hc
           cases hc
           refine ⟨⟨?_, ?_, ?_, ?_⟩, ?_⟩
@@ -834,7 +1006,8 @@ theorem fieldNamed_tot {d : Bytes} {s : PState} (h : FP d s) (curObj : Nat) (st 
 
 /-- `parseByteList(obj, n)` when the `n` bytes fit below `pkgEnd` -/
 theorem parseByteList_tot {d : Bytes} (hd : d.size + 1024 ≤ 4294967296) {s : PState} (h : FP d s) {obj : Nat}
-    (ho : live s.tree obj = true) (n : Nat) (hfit : s.r.offset + n ≤ s.r.pkgEnd) :
+    (ho : live s.tree obj = true) (n : Nat) (hfit : s.r.offset + n ≤ s.r.pkgEnd)
+    (hcur : (slot s.tree obj).opcode ≠ opMethod) :
     ∃ a s', parseByteList d obj n s = .ok (a, s') ∧ FP d s' ∧ PayOnly obj s s' ∧ s'.r.offset = s.r.offset + n := by
   unfold parseByteList
   have hl : KeepsLive s.tree obj (fun o => { o with opcode := opIntByteList }) := by
@@ -842,7 +1015,7 @@ theorem parseByteList_tot {d : Bytes} (hd : d.size + 1024 ≤ 4294967296) {s : P
     have hne : opIntByteList ≠ pOpIntFreedObject := by decide
     exact ⟨fun hc => absurd hc hne, fun hc => absurd hc (live_opcode ho)⟩
   obtain ⟨s1, e1, h1, hp1, _, hr1⟩ := upd_step h ho (fun o => { o with opcode := opIntByteList }) (by keeps_links) hl
-    (h.tree.info obj ho)
+    (h.tree.info obj ho) ⟨fun hq => absurd (show opIntByteList = opMethod from hq) (by decide), fun hq => absurd hq hcur⟩
   refine bind_ex e1 ?_
   have ho1 : live s1.tree obj = true := by rw [hp1.links.live]; exact ho
   obtain ⟨s2, e2, h2, hp2, _, hr2⟩ := upd_step h1 ho1
@@ -869,14 +1042,14 @@ theorem parseByteList_tot {d : Bytes} (hd : d.size + 1024 ≤ 4294967296) {s : P
 def NewObj (s s' : PState) (c : Nat) : Prop := live s.tree c = false ∧ live s'.tree c = true ∧ C13.P s'.tree c = INV
 
 theorem connName_tot {d : Bytes} (hd : d.size + 1024 ≤ 4294967296) {s : PState} (h : FP d s) (hsz : s.tree.pool.size < INV) :
-    ∃ a s', connName d s = .ok (a, s') ∧ FP d s' ∧ GrowE 1 1 s s' ∧
+    ∃ a s', connName d s = .ok (a, s') ∧ FP d s' ∧ GrowE T 1 1 s s' ∧
       (∀ c, a = .inr c → NewObj s s' c ∧ s.r.offset ≤ s'.r.offset) := by
   unfold connName
   obtain ⟨_, s1, e1, h1, hR1, hs1⟩ := lex_step (rel_unreadByte d) h
   refine bind_ex e1 ?_
-  have g1 : GrowE 1 0 s s1 := GrowE.ofLex 1 hs1 (by have := hR1.2; omega)
+  have g1 : GrowE T 1 0 s s1 := GrowE.ofLex (T := T) 1 hs1 (by have := hR1.2; omega)
   have ht1 : s1.tree = s.tree := by rw [hs1]
-  obtain ⟨n, s2, e2, h2, f2, hr2, _⟩ := newObject_step h1 opIntNamePath (by rw [ht1]; exact hsz) (by decide) info_const.2.2.2.2.2.2.1
+  obtain ⟨n, s2, e2, h2, f2, hr2, hop2, _⟩ := newObject_step h1 opIntNamePath (by rw [ht1]; exact hsz) (by decide) info_const.2.2.2.2.2.2.1
   refine bind_ex e2 ?_
   obtain ⟨off, s3, e3, h3, hR3, hs3⟩ := lex_step (rel_offset d) h2
   refine bind_ex e3 ?_
@@ -889,9 +1062,14 @@ theorem connName_tot {d : Bytes} (hd : d.size + 1024 ≤ 4294967296) {s : PState
   have hf4 : live s4.tree n = true := by rw [hp4.links.live]; exact hf3
   obtain ⟨res, s5, e5, h5, hp5, hprog, _⟩ := setNameValue_tot hd h4 hf4
   refine bind_ex e5 ?_
-  have f5 : Fresh1 n s1 s5 :=
-    f2.thenPay (((PayOnly.ofLex _ hs3 (by rw [hr3]) (by rw [hr3]; exact Nat.le_refl _)).trans hp4).trans hp5)
-  have g5 : GrowE 1 1 s s5 := g1.trans f5.growE
+  have p25 : PayOnly n s2 s5 := ((PayOnly.ofLex _ hs3 (by rw [hr3]) (by rw [hr3]; exact Nat.le_refl _)).trans hp4).trans hp5
+  have f5 : Fresh1 n s1 s5 := f2.thenPay p25
+  have hnm5 : (slot s5.tree n).opcode ≠ opMethod := by
+    intro hq
+    have := p25.mth.1 hq
+    rw [hop2] at this
+    revert this; decide
+  have g5 : GrowE T 1 1 s s5 := g1.trans (f5.growE hnm5)
   by_cases hres : res = .ok
   · rw [if_neg (by rw [hres]; decide)]
     refine pure_ex ⟨h5, g5, ?_⟩
@@ -954,7 +1132,7 @@ theorem connBufferFinish_tot {d : Bytes} (hd : d.size + 268435456 ≤ 4294967296
     (hsz : s.tree.pool.size < INV) (origPkgEnd origOffset pkgLen dataLen : Nat) (hpl : pkgLen < 268435456)
     (hoo : origOffset ≤ d.size) :
     ∃ a s', connBufferFinish d origPkgEnd origOffset pkgLen dataLen s = .ok (a, s') ∧ FP d s' ∧
-      GrowE (s.r.offset - origOffset) 1 s s' ∧
+      GrowE T (s.r.offset - origOffset) 1 s s' ∧
       (∀ c, a = .inr c → NewObj s s' c ∧ origOffset ≤ s'.r.offset) := by
   have hd' : d.size + 1024 ≤ 4294967296 := by omega
   unfold connBufferFinish
@@ -963,15 +1141,17 @@ theorem connBufferFinish_tot {d : Bytes} (hd : d.size + 268435456 ≤ 4294967296
   · rw [if_pos hfit]
     exact pure_ex ⟨h, (GrowE.refl s).weaken (by omega) (by omega), fun c hc => by cases hc⟩
   · rw [if_neg hfit]
-    obtain ⟨n, s1, e1, h1, f1, hr1, _⟩ := newObject_step h opIntByteList hsz (by decide) info_const.2.2.2.2.2.2.2.1
+    obtain ⟨n, s1, e1, h1, f1, hr1, hop1, _⟩ := newObject_step h opIntByteList hsz (by decide) info_const.2.2.2.2.2.2.2.1
     refine bind_ex e1 ?_
     have hc1 : live s1.tree n = true := f1.liven
+    have hnm1 : (slot s1.tree n).opcode ≠ opMethod := by rw [hop1]; decide
     obtain ⟨s2, e2, h2, hp2, _, hr2⟩ := upd_step h1 hc1 (fun o => { o with amlOffset := origOffset }) (by keeps_links) Iff.rfl
       (h1.tree.info _ hc1)
     refine bind_ex e2 ?_
     have hc2 : live s2.tree n = true := by rw [hp2.links.live]; exact hc1
     have hle : u32 dataLen ≤ dataLen := Nat.mod_le _ _
     obtain ⟨_, s3, e3, h3, hp3, hoff3⟩ := parseByteList_tot hd' h2 hc2 (u32 dataLen) (by rw [hr2, hr1]; omega)
+      (fun hq => hnm1 (hp2.mth.1 hq))
     refine bind_ex e3 ?_
     obtain ⟨_, s4, e4, h4, hR4, hs4⟩ := lex_step (rel_setPkgEnd d origPkgEnd) h3
     refine bind_ex e4 ?_
@@ -984,12 +1164,9 @@ theorem connBufferFinish_tot {d : Bytes} (hd : d.size + 268435456 ≤ 4294967296
       rw [this]; split <;> omega
     have ht4 : s4.tree = s3.tree := by rw [hs4]
     have ht5 : s5.tree = s4.tree := by rw [hs5]
-    have g5 : GrowE (s.r.offset - origOffset) 1 s s5 := by
-      have g3 := f3.growE
-      refine ⟨by omega, by rw [ht5, ht4]; exact g3.pool, by rw [ht5, ht4]; exact g3.poolUp,
-        fun x hx => by rw [ht5, ht4]; exact g3.oldP x hx, fun x hx => by rw [ht5, ht4]; exact g3.oldLive x hx,
-        by rw [hs5, hs4]; exact g3.scope, by rw [hs5, hs4]; exact g3.pkg,
-        by rw [hs5, hs4]; exact g3.same⟩
+    have g5 : GrowE T (s.r.offset - origOffset) 1 s s5 := by
+      have g3 : GrowE T 0 1 s s3 := f3.growE (fun hq => hnm1 ((hp2.trans hp3).mth.1 hq))
+      exact g3.thenLex (c' := s5) (by rw [hs5, hs4]) (by omega)
     refine pure_ex ⟨h5, g5, ?_⟩
     intro c hc
     cases hc
@@ -998,7 +1175,7 @@ theorem connBufferFinish_tot {d : Bytes} (hd : d.size + 268435456 ≤ 4294967296
 /-- `case uint8(pOpBuffer):` of a Connection -/
 theorem connBuffer_tot {d : Bytes} (hd : d.size + 268435456 ≤ 4294967296) {s : PState} (h : FP d s)
     (hsz : s.tree.pool.size < INV) :
-    ∃ a s', connBuffer d s = .ok (a, s') ∧ FP d s' ∧ GrowE 0 1 s s' ∧ (∀ c, a = .inr c → NewObj s s' c) := by
+    ∃ a s', connBuffer d s = .ok (a, s') ∧ FP d s' ∧ GrowE T 0 1 s s' ∧ (∀ c, a = .inr c → NewObj s s' c) := by
   have hd' : d.size + 1024 ≤ 4294967296 := by omega
   unfold connBuffer
   refine bind_ex (reader_ex s) ?_
@@ -1010,15 +1187,15 @@ theorem connBuffer_tot {d : Bytes} (hd : d.size + 268435456 ≤ 4294967296) {s :
     rcases hR1 with ⟨_, hr⟩ | ⟨_, _, hlt, _, _⟩
     · rw [hr]; exact Nat.le_refl _
     · omega
-  have g1 : GrowE 0 0 s s1 := GrowE.ofLex 0 hs1 (by omega)
-  have conv : ∀ {s2 : PState} {a : Sum PRes Nat} {s' : PState}, GrowE 0 0 s s2 →
-      GrowE (s2.r.offset - s.r.offset) 1 s2 s' →
+  have g1 : GrowE T 0 0 s s1 := GrowE.ofLex (T := T) 0 hs1 (by omega)
+  have conv : ∀ {s2 : PState} {a : Sum PRes Nat} {s' : PState}, GrowE T 0 0 s s2 →
+      GrowE T (s2.r.offset - s.r.offset) 1 s2 s' →
       (∀ c, a = .inr c → NewObj s2 s' c ∧ s.r.offset ≤ s'.r.offset) →
       s2.tree = s.tree →
-      GrowE 0 1 s s' ∧ (∀ c, a = .inr c → NewObj s s' c) := by
+      GrowE T 0 1 s s' ∧ (∀ c, a = .inr c → NewObj s s' c) := by
     intro s2 a s' g2 gf hc hn
     have gt := g2.trans gf
-    refine ⟨⟨?_, gt.pool, by have := gt.poolUp; omega, gt.oldP, gt.oldLive, gt.scope, gt.pkg, gt.same⟩, ?_⟩
+    refine ⟨gt.reoff ?_ (by omega), ?_⟩
     · have := gf.offb; have := g2.offb; omega
     · intro c hcc
       obtain ⟨⟨q1, q2, q3⟩, _⟩ := hc c hcc
@@ -1045,8 +1222,8 @@ theorem connBuffer_tot {d : Bytes} (hd : d.size + 268435456 ≤ 4294967296) {s :
 
 /-- `case 0x02: // Connection` -/
 theorem fieldConnection_tot {d : Bytes} (hd : d.size + 268435456 ≤ 4294967296) {s : PState} (h : FP d s)
-    (curObj : Nat) (st : FieldSt) (hc : live s.tree curObj = true) (hsz : s.tree.pool.size + 1 < INV) :
-    ∃ a s', fieldConnection d curObj st s = .ok (a, s') ∧ FP d s' ∧ GrowE 0 2 s s' ∧
+    (curObj : Nat) (st : FieldSt) (hc : live s.tree curObj = true) (hsz : s.tree.pool.size + 1 < INV) (hT : T curObj) :
+    ∃ a s', fieldConnection d curObj st s = .ok (a, s') ∧ FP d s' ∧ GrowE T 0 2 s s' ∧
       (∀ st', a = .inr st' → st'.appendAfter = st.appendAfter ∧ s.r.offset < s'.r.offset) := by
   have hd' : d.size + 1024 ≤ 4294967296 := by omega
   unfold fieldConnection
@@ -1055,25 +1232,28 @@ theorem fieldConnection_tot {d : Bytes} (hd : d.size + 268435456 ≤ 4294967296)
   have ht1 : s1.tree = s.tree := by rw [hs1]
   rcases hR1 with ⟨hn, hr, _⟩ | ⟨b, hb, hr, hlt⟩
   · subst hn
-    exact pure_ex ⟨h1, (GrowE.ofLex 0 hs1 (by rw [hr]; omega)).weaken (by omega) (by omega), fun st' hc => by cases hc⟩
+    exact pure_ex ⟨h1, (GrowE.ofLex (T := T) 0 hs1 (by rw [hr]; omega)).weaken (by omega) (by omega), fun st' hc => by cases hc⟩
   · subst hb
     have ho1 : s1.r.offset = s.r.offset + 1 := by rw [hr]
-    have g1 : GrowE 0 0 s s1 := GrowE.ofLex 0 hs1 (by omega)
+    have g1 : GrowE T 0 0 s s1 := GrowE.ofLex (T := T) 0 hs1 (by omega)
     dsimp only
     obtain ⟨n, s2, e2, h2, f2, hr2, hnew2⟩ := newObject_step h1 opIntConnection (by rw [ht1]; omega) (by decide)
       info_const.2.2.2.2.2.2.2.2.2.1
     refine bind_ex e2 ?_
     refine bind_ex (getObj_live f2.liven) ?_
     have hcur1 : live s1.tree curObj = true := by rw [ht1]; exact hc
-    obtain ⟨s3, e3, h3, hs3, hsz3, _, hl3, hP3, _⟩ := append_step h2 h1.tree.wf f2.growE.hold hcur1 f2.nlive f2.liven f2.pn
+    have hnm2 : (slot s2.tree n).opcode ≠ opMethod := by rw [hnew2.1]; decide
+    have g12 : GrowE T 0 1 s1 s2 := f2.growE hnm2
+    obtain ⟨s3, e3, h3, hs3, hsz3, sp3, hl3, hP3, _, hNx3, hFi3⟩ := append_step h2 h1.tree.wf g12.hold hcur1 f2.nlive f2.liven f2.pn
     refine bind_ex e3 ?_
     have hn1 : live s.tree n = false := by rw [← ht1]; exact f2.nlive
-    have g3 : GrowE 0 1 s s3 := (g1.trans f2.growE).thenAppend hs3 hsz3 hl3 hP3 hn1
+    have g3 : GrowE T 0 1 s s3 := (g1.trans g12).thenAppend hs3 hsz3 hl3 hP3 hn1 (Or.inl hT) h2.tree.wf
+      (g12.oldLive _ hcur1) sp3 hNx3 hFi3
     have hsz3' : s3.tree.pool.size ≤ s.tree.pool.size + 1 := by rw [hsz3]; have := f2.size.2; rw [ht1] at this; exact this
     have hr3 : s3.r = s2.r := by rw [hs3]
     have hn3 : live s3.tree n = true := by rw [hl3]; exact f2.liven
     -- the connection argument
-    have arg : ∃ a s4, (if b.toNat = opBuffer then connBuffer d else connName d) s3 = .ok (a, s4) ∧ FP d s4 ∧ GrowE 1 1 s3 s4 ∧
+    have arg : ∃ a s4, (if b.toNat = opBuffer then connBuffer d else connName d) s3 = .ok (a, s4) ∧ FP d s4 ∧ GrowE T 1 1 s3 s4 ∧
         (∀ c, a = .inr c → NewObj s3 s4 c ∧ s3.r.offset ≤ s4.r.offset) := by
       split
       · obtain ⟨a, s4, e4, h4, g4, hc4⟩ := connBuffer_tot hd h3 (by omega)
@@ -1083,23 +1263,23 @@ theorem fieldConnection_tot {d : Bytes} (hd : d.size + 268435456 ≤ 4294967296)
       · exact connName_tot hd' h3 (by omega)
     obtain ⟨a, s4, e4, h4, g4, hc4⟩ := arg
     refine bind_ex e4 ?_
-    have g4' : GrowE 1 2 s s4 := g3.trans g4
+    have g4' : GrowE T 1 2 s s4 := g3.trans g4
     have hoff4 : s.r.offset ≤ s4.r.offset := by
       have := g4.offb; rw [hr3, hr2, ho1] at this; omega
     cases a with
     | inl res =>
-      exact pure_ex ⟨h4, ⟨by omega, g4'.pool, g4'.poolUp, g4'.oldP, g4'.oldLive, g4'.scope, g4'.pkg, g4'.same⟩, fun st' hc => by cases hc⟩
+      exact pure_ex ⟨h4, g4'.reoff (by omega) (by omega), fun st' hc => by cases hc⟩
     | inr connArg =>
       obtain ⟨⟨q1, q2, q3⟩, q4⟩ := hc4 connArg rfl
-      obtain ⟨s5, e5, h5, hs5, hsz5, _, hl5, hP5, _⟩ := append_step h4 h3.tree.wf g4.hold hn3 q1 q2 q3
+      obtain ⟨s5, e5, h5, hs5, hsz5, sp5, hl5, hP5, _, hNx5, hFi5⟩ := append_step h4 h3.tree.wf g4.hold hn3 q1 q2 q3
       refine bind_ex e5 (pure_ex ⟨h5, ?_, ?_⟩)
       · have hq0 : live s.tree connArg = false := by
           cases hq : live s.tree connArg with
           | false => rfl
           | true => rw [g3.oldLive _ hq] at q1; cases q1
-        have g5 := g4'.thenAppend hs5 hsz5 hl5 hP5 hq0
+        have g5 := g4'.thenAppend hs5 hsz5 hl5 hP5 hq0 (Or.inr ⟨h.tree.wf, hn1⟩) h4.tree.wf (g4.oldLive _ hn3) sp5 hNx5 hFi5
         have hr5 : s5.r = s4.r := by rw [hs5]
-        exact ⟨by rw [hr5]; omega, g5.pool, g5.poolUp, g5.oldP, g5.oldLive, g5.scope, g5.pkg, g5.same⟩
+        exact g5.reoff (by rw [hr5]; omega) (by omega)
       · intro st' hcc
         cases hcc
         have hr5 : s5.r = s4.r := by rw [hs5]
@@ -1109,8 +1289,8 @@ theorem fieldConnection_tot {d : Bytes} (hd : d.size + 268435456 ≤ 4294967296)
 /-- one iteration of the field-list loop (the reader is not at EOF) -/
 theorem fieldStep_tot {d : Bytes} (hd : d.size + 268435456 ≤ 4294967296) {s : PState} (h : FP d s)
     (curObj : Nat) (st : FieldSt) (hfi : FieldInv s curObj st) (hsz : s.tree.pool.size + 1 < INV)
-    (hne : s.r.offset < s.r.pkgEnd) :
-    ∃ a s', fieldStep d curObj st s = .ok (a, s') ∧ FP d s' ∧ GrowE 0 2 s s' ∧
+    (hne : s.r.offset < s.r.pkgEnd) (hT1 : T curObj) (hT2 : T (C13.P s.tree curObj)) :
+    ∃ a s', fieldStep d curObj st s = .ok (a, s') ∧ FP d s' ∧ GrowE T 0 2 s s' ∧
       (∀ st', a = .inr st' → FieldInv s' curObj st' ∧ s.r.offset < s'.r.offset) := by
   unfold fieldStep
   obtain ⟨ob, s1, e1, h1, hR1, hs1⟩ := lex_step (rel_readByte d) h
@@ -1120,11 +1300,11 @@ theorem fieldStep_tot {d : Bytes} (hd : d.size + 268435456 ≤ 4294967296) {s : 
   · omega
   · subst hb
     have ho1 : s1.r.offset = s.r.offset + 1 := by rw [hr]
-    have g1 : GrowE 0 0 s s1 := GrowE.ofLex 0 hs1 (by omega)
+    have g1 : GrowE T 0 0 s s1 := GrowE.ofLex (T := T) 0 hs1 (by omega)
     have fi1 : FieldInv s1 curObj st := hfi.mono g1
-    have same : ∀ {a : FieldStep} {s' : PState}, FP d s' → GrowE 0 0 s1 s' →
+    have same : ∀ {a : FieldStep} {s' : PState}, FP d s' → GrowE T 0 0 s1 s' →
         (∀ st', a = .inr st' → st'.appendAfter = st.appendAfter ∧ s1.r.offset < s'.r.offset) →
-        FP d s' ∧ GrowE 0 2 s s' ∧ (∀ st', a = .inr st' → FieldInv s' curObj st' ∧ s.r.offset < s'.r.offset) := by
+        FP d s' ∧ GrowE T 0 2 s s' ∧ (∀ st', a = .inr st' → FieldInv s' curObj st' ∧ s.r.offset < s'.r.offset) := by
       intro a s' h' g' hc'
       refine ⟨h', (g1.trans g').weaken (by omega) (by omega), ?_⟩
       intro st' hcc
@@ -1141,15 +1321,15 @@ theorem fieldStep_tot {d : Bytes} (hd : d.size + 268435456 ≤ 4294967296) {s : 
         · obtain ⟨a, s', e, h', g', hc'⟩ := fieldExtAccess_tot h1 st
           exact ⟨a, s', e, same h' g' hc'⟩
         · split
-          · obtain ⟨a, s', e, h', g', hc'⟩ := fieldConnection_tot hd h1 curObj st fi1.1 (by rw [ht1]; exact hsz)
+          · obtain ⟨a, s', e, h', g', hc'⟩ := fieldConnection_tot hd h1 curObj st fi1.1 (by rw [ht1]; exact hsz) hT1
             refine ⟨a, s', e, h', (g1.trans g').weaken (by omega) (by omega), ?_⟩
             intro st' hcc
             obtain ⟨q1, q2⟩ := hc' st' hcc
             have := fi1.mono g'
             exact ⟨⟨this.1, by rw [q1]; exact this.2.1, this.2.2.1, by rw [q1]; exact this.2.2.2⟩, by omega⟩
-          · obtain ⟨a, s', e, h', g', hc'⟩ := fieldNamed_tot h1 curObj st fi1 (by rw [ht1]; omega)
+          · obtain ⟨a, s', e, h', g', hc'⟩ := fieldNamed_tot (T := T) h1 curObj st fi1 (by rw [ht1]; omega) (by rw [ht1]; exact hT2)
             have gt := g1.trans g'
-            refine ⟨a, s', e, h', ⟨by have := g'.offb; omega, gt.pool, by have := gt.poolUp; omega, gt.oldP, gt.oldLive, gt.scope, gt.pkg, gt.same⟩, ?_⟩
+            refine ⟨a, s', e, h', gt.reoff (by have := g'.offb; omega) (by omega), ?_⟩
             intro st' hcc
             obtain ⟨q1, q2⟩ := hc' st' hcc
             exact ⟨q1, by omega⟩
@@ -1164,7 +1344,7 @@ theorem Bud.step {d : Bytes} {k c g : Nat} {s s' : PState} (h : Bud d k s) (hg :
   omega
 
 /-- an equal-stacks step that consumed a byte and made at most 16 objects -/
-theorem GrowE.growProg {m : Nat} {s s' : PState} (h : GrowE 0 m s s') (hp : s.r.offset < s'.r.offset) (hm : m ≤ 16) :
+theorem GrowE.growProg {m : Nat} {s s' : PState} (h : GrowE T 0 m s s') (hp : s.r.offset < s'.r.offset) (hm : m ≤ 16) :
     Grow 0 0 s s' :=
   ⟨by omega, h.pool, by have := h.poolUp; omega, h.oldP, h.oldLive, by rw [h.scope]; exact Nat.le_refl _, by rw [h.pkg]; exact Nat.le_refl _,
    by rw [h.scope, h.pkg]; omega, by rw [h.pkg]; omega, h.same⟩
@@ -1172,13 +1352,14 @@ theorem GrowE.growProg {m : Nat} {s s' : PState} (h : GrowE 0 m s s') (hp : s.r.
 /-- the `for !p.r.EOF()` loop of `parseFieldElements` -/
 theorem fieldLoop_tot {d : Bytes} (hd : d.size + 268435456 ≤ 4294967296) (curObj : Nat) :
     ∀ (f : Nat) (st : FieldSt) {s : PState}, FP d s → FieldInv s curObj st → Bud d 2 s → d.size - s.r.offset + 1 ≤ f →
+    T curObj → T (C13.P s.tree curObj) →
     ∃ res s', fieldLoop d curObj f st s = .ok (res, s') ∧ FP d s' ∧ Grow 2 0 s s' ∧
-      s'.scopeStack = s.scopeStack ∧ s'.pkgEndStack = s.pkgEndStack := by
+      s'.scopeStack = s.scopeStack ∧ s'.pkgEndStack = s.pkgEndStack ∧ FrmS T s s' := by
   intro f
   induction f with
   | zero => intro st s _ _ _ hf; omega
   | succ f ih =>
-    intro st s h hfi hb hf
+    intro st s h hfi hb hf hT1 hT2
     unfold fieldLoop
     obtain ⟨b, s1, e1, h1, hR1, hs1⟩ := lex_step (rel_eof d) h
     refine bind_ex e1 ?_
@@ -1187,31 +1368,32 @@ theorem fieldLoop_tot {d : Bytes} (hd : d.size + 268435456 ≤ 4294967296) (curO
     rw [hR1.1]
     by_cases he : s1.r.eof = true
     · rw [if_pos he]
-      exact pure_ex ⟨h, (Grow.refl s1).weaken (by omega) (by omega), rfl, rfl⟩
+      exact pure_ex ⟨h, (Grow.refl s1).weaken (by omega) (by omega), rfl, rfl, FrmS.refl s1⟩
     · rw [if_neg he]
       have hne : s1.r.offset < s1.r.pkgEnd := by
         unfold Reader.eof at he; simp at he; exact he
       have hsz : s1.tree.pool.size + 1 < INV := by unfold Bud at hb; omega
-      obtain ⟨a, s2, e2, h2, g2, hc2⟩ := fieldStep_tot hd h curObj st hfi hsz hne
+      obtain ⟨a, s2, e2, h2, g2, hc2⟩ := fieldStep_tot (T := T) hd h curObj st hfi hsz hne hT1 hT2
       refine bind_ex e2 ?_
       cases a with
-      | inl res => exact pure_ex ⟨h2, g2.grow, g2.scope, g2.pkg⟩
+      | inl res => exact pure_ex ⟨h2, g2.grow, g2.scope, g2.pkg, g2.frmS⟩
       | inr st' =>
         obtain ⟨fi2, hp2⟩ := hc2 st' rfl
         have gg := g2.growProg hp2 (by omega)
         have hi2 := h2.inv.1
         have hb2 : Bud d 2 s2 := by have := hb.step gg hi2 (by omega); exact this
-        obtain ⟨res, s3, e3, h3, g3, hsc3, hpk3⟩ := ih st' h2 fi2 hb2 (by omega)
-        refine ⟨res, s3, e3, h3, ?_, by rw [hsc3, g2.scope], by rw [hpk3, g2.pkg]⟩
+        obtain ⟨res, s3, e3, h3, g3, hsc3, hpk3, fr3⟩ := ih st' h2 fi2 hb2 (by omega) hT1 (by rw [g2.oldP _ hfi.1]; exact hT2)
+        refine ⟨res, s3, e3, h3, ?_, by rw [hsc3, g2.scope], by rw [hpk3, g2.pkg], g2.frmS.trans fr3⟩
         have := gg.trans g3
         exact this.weaken (by omega) (by omega)
 
 /-- `parseFieldElements(curObj)`: `curObj` is attached and its last argument is an integer -/
 theorem parseFieldElements_tot {d : Bytes} (hd : d.size + 268435456 ≤ 4294967296) {s : PState} (h : FP d s) (curObj : Nat)
     (hc : live s.tree curObj = true) (hp : C13.P s.tree curObj ≠ INV) (hla : live s.tree (La s.tree curObj) = true)
-    (hv : ∃ v, (slot s.tree (La s.tree curObj)).value = .u64 v) (hb : Bud d 2 s) :
+    (hv : ∃ v, (slot s.tree (La s.tree curObj)).value = .u64 v) (hb : Bud d 2 s)
+    (hT1 : T curObj) (hT2 : T (C13.P s.tree curObj)) :
     ∃ res s', parseFieldElements d curObj s = .ok (res, s') ∧ FP d s' ∧ Grow 2 0 s s' ∧
-      s'.scopeStack = s.scopeStack ∧ s'.pkgEndStack = s.pkgEndStack := by
+      s'.scopeStack = s.scopeStack ∧ s'.pkgEndStack = s.pkgEndStack ∧ FrmS T s s' := by
   unfold parseFieldElements
   refine bind_ex (getObj_live hc) ?_
   refine bind_ex (objectAt_live' hla) ?_
@@ -1223,7 +1405,7 @@ theorem parseFieldElements_tot {d : Bytes} (hd : d.size + 268435456 ≤ 42949672
     simp only [StateT.bind, getObj_live hla, bind, Except.bind, hv]
     rfl
   refine bind_ex e4 ?_
-  exact fieldLoop_tot hd curObj (d.size + 1) _ h ⟨hc, hc, hp, rfl⟩ hb (by omega)
+  exact fieldLoop_tot hd curObj (d.size + 1) _ h ⟨hc, hc, hp, rfl⟩ hb (by omega) hT1 hT2
 
 
 /-! ## the remaining argument kinds -/
@@ -1590,7 +1772,7 @@ theorem arg_step {d : Bytes} (hd : d.size + 268435456 ≤ 4294967296) {f : Nat} 
     have hnpk : argType ≠ argTypePkgLen := by intro hq; rw [hq] at hsimple; revert hsimple; decide
     have hnta : argType ≠ argTypeTermArg := by intro hq; rw [hq] at hsimple; revert hsimple; decide
     rw [if_neg hntl]
-    obtain ⟨a, s', n, e, h', f', hres⟩ := parseSimpleArg_tot hd' h (hb.mono (k' := 1) (by omega)).size_lt argType
+    obtain ⟨a, s', n, e, h', f', _, hres⟩ := parseSimpleArg_tot hd' h (hb.mono (k' := 1) (by omega)).size_lt argType
     refine ⟨a, s', e, h', f'.grow.weaken (by omega) (by omega), ?_, ?_, fun hq => absurd hq hnpk, ?_⟩
     · intro x hx
       rcases hres with ⟨ha, _, _⟩ | ha
@@ -1622,7 +1804,7 @@ theorem arg_step {d : Bytes} (hd : d.size + 268435456 ≤ 4294967296) {f : Nat} 
         have hntl : argType ≠ argTypeTermList := by rw [hfld]; decide
         rw [if_neg hntl]
         obtain ⟨hp, hla, hv⟩ := hfl hfld
-        obtain ⟨res, s', e, h', g', _, _⟩ := parseFieldElements_tot hd h curObj hc hp hla hv hb
+        obtain ⟨res, s', e, h', g', _, _⟩ := parseFieldElements_tot (T := fun _ => True) hd h curObj hc hp hla hv hb trivial trivial
         refine bind_ex e (pure_ex ⟨h', g', fun x hx => (by cases hx), fun hq => (by rw [hfld] at hq; cases hq),
           fun hq => absurd hq hpk, ?_⟩)
         intro hq; rcases hq with hq | hq
@@ -1768,7 +1950,7 @@ theorem args_step {d : Bytes} {f : Nat} (ih : FirstPassTot d f) {s : PState}
     | none => exact cont s1 h1 g1 rfl rfl rfl rfl (fun x hx => hx) (fun x hx => by cases hx)
     | some x =>
       obtain ⟨q1, q2, q3⟩ := hret x rfl
-      obtain ⟨s2, e2, h2, hs2, hsz2, sp2, hl2, hP2, hLa2⟩ := append_step h1 h.tree.wf g1.hold hc q1 q2 q3
+      obtain ⟨s2, e2, h2, hs2, hsz2, sp2, hl2, hP2, hLa2, _⟩ := append_step h1 h.tree.wf g1.hold hc q1 q2 q3
       refine bind_ex e2 ?_
       refine cont s2 h2 (g1.thenAppend hs2 hsz2 hl2 hP2 q1) (by rw [hs2]) hsz2 (by rw [hs2]) (by rw [hs2])
         (fun y hy => by rw [hl2]; exact hy) ?_
